@@ -76,6 +76,8 @@ def _noraise_call(model, c, m, f, call, depth, seen):
         return None
     if name and any(name.startswith(p) for p in SAFE_PREFIXES):
         return None
+    if sa.is_logger_call(model, m, call):
+        return None         # logger.debug(...) on a module-level logging.getLogger(...) object
     # .get on a dict (display-bound local or module-level dict)
     if isinstance(call.func, ast.Attribute) and call.func.attr == 'get':
         base = sa.resolve_local(f, call.func.value)
@@ -722,6 +724,12 @@ def while_verdict(model, m, f, w, consts):
             updates.append(n)
         elif isinstance(n, ast.Assign) and any(isinstance(t, ast.Name) and t.id == var for t in n.targets):
             updates.append(n)
+    # any other binding of the variable in the body (tuple unpacking  a, b = b, a % b ; a walrus ; a for target) is an update too,
+    # only not one of the recognised strictly monotone forms
+    other_bindings = [n for n in walk_no_defs(w) if (isinstance(n, ast.Name) and n.id == var and isinstance(n.ctx, ast.Store))
+                      and not any(n in getattr(u, 'targets', [getattr(u, 'target', None)]) for u in updates)]
+    if not updates and other_bindings:
+        return None, 'the loop variable %s is rebound in the body in a form that is not a recognised monotone update' % var
     if not updates:
         return False, 'the loop variable %s is never updated in the body' % var
     # every complete path through the body performs a strict update
@@ -739,11 +747,19 @@ def while_verdict(model, m, f, w, consts):
         return False, '; '.join(problems)
     if not strict_ids:
         return None, 'update of %s not in a recognised strictly monotone form' % var
+    undecided_path = None
     for p in function_paths(list(w.body)):
         if p.kind() in ('return', 'raise', 'break'):
             continue
         if not any(id(st) in strict_ids for st in p.stmts()):
+            # the path may still change the variable in a way that is not a recognised strict update (i += len(d)): undecided then
+            touched = any(isinstance(x, ast.Name) and x.id == var and isinstance(x.ctx, ast.Store) for st in p.stmts() for x in ast.walk(st))
+            if touched:
+                undecided_path = p
+                continue
             return False, 'a path through the loop body (%s) does not update %s' % (p.describe(), var)
+    if undecided_path is not None:
+        return None, 'on the path %s the variable %s changes by an amount the rule cannot bound away from zero' % (undecided_path.describe(), var)
     return True, 'W2 monotone counter: ' + '; '.join(sorted(set(strict_ids.values())))
 
 
